@@ -128,6 +128,43 @@ func lexOne(o *out, text string, tag string, direct bool) {
 			o.fail("", fmt.Sprintf("tokens do not tile %q: token %d (%s) spans [%d,%d)", text, i, r.tok, prev, r.endO), rp())
 			return
 		}
+		// the token is the lexeme of its extent: scanning the extent on its own yields this one token and nothing else
+		if !last && !strings.ContainsRune(string(folded[prev:r.endO]), '\r') {
+			sub := string(folded[prev:r.endO])
+			s2 := influxql.NewScanner(strings.NewReader(sub))
+			tok2, _, lit2 := s2.Scan()
+			tok3, _, _ := s2.Scan()
+			if tok2 != r.tok || lit2 != r.lit || tok3 != influxql.EOF {
+				o.fail("", fmt.Sprintf("token %d (%s %q) of %q spans %q, which on its own scans as %s %q followed by %s", i, r.tok, r.lit, text, sub, tok2, lit2, tok3), rp())
+				return
+			}
+			// tokens whose spelling is determined by kind and literal cover exactly that spelling
+			spell, fixed := "", false
+			switch {
+			case r.tok == influxql.WS || r.tok == influxql.INTEGER || r.tok == influxql.DURATIONVAL:
+				spell, fixed = r.lit, true
+			case r.tok == influxql.ILLEGAL && r.lit != "":
+				spell, fixed = r.lit, true
+			case r.tok == influxql.IDENT && !strings.Contains(sub, "\""):
+				spell, fixed = r.lit, true
+			case r.tok == influxql.NUMBER:
+				spell, fixed = r.lit, !strings.HasSuffix(sub, ".") || sub == r.lit
+			case r.tok != influxql.NEQ && r.lit == "" && (influxql.VerifIsOperator(r.tok) || r.tok == influxql.TRUE || r.tok == influxql.FALSE ||
+				(r.tok >= influxql.LPAREN && r.tok <= influxql.DOT) || r.tok >= influxql.ALL):
+				spell, fixed = r.tok.String(), true
+			}
+			if fixed && !strings.EqualFold(sub, spell) {
+				o.fail("", fmt.Sprintf("token %d (%s %q) of %q covers %q, not its own spelling", i, r.tok, r.lit, text, sub), rp())
+				return
+			}
+			// a block comment ends at the first */ after its opening
+			if strings.HasPrefix(sub, "/*") {
+				if k := strings.Index(sub[2:], "*/"); (k >= 0 && (k+4 != len(sub) || r.tok != influxql.COMMENT)) || (k < 0 && r.tok != influxql.ILLEGAL) {
+					o.fail("", fmt.Sprintf("block comment token %d of %q spans %q (%s)", i, text, sub, r.tok), rp())
+					return
+				}
+			}
+		}
 		want := linecol(folded, prev)
 		if r.pos != want {
 			class := ""
@@ -171,7 +208,7 @@ var lexPieces = []string{
 	"select", "SELECT", "From", "where", "and", "OR", "true", "FALSE", "a", "b1", "_x", "cpu_load", "\"q id\"", "\"a\\\"b\"", "\"nl\\n\"",
 	"'str'", "'it\\'s'", "'a\\\\b'", "'bad\\q'", "'open", "\"open", "''", "\"\"", "12", "007", "1.5", ".5", "5.", "1.2.3", "10s", "1h30m", "3µ", "5ms", "9x9",
 	"$p", "$", "$\"q\"", "$1", "+", "-", "*", "/", "%", "&", "|", "^", "=", "!=", "<>", "=~", "!~", "<", "<=", ">", ">=", "!", "(", ")", ",", ";", ":", "::", ".",
-	"..", "-- line comment", "--", "/* block */", "/* open", "/**/", "/***/", "/* a * / b */", " ", "  ", "\t", "\n", "\r\n", "\r", "\n\n", " \n ",
+	"..", "-- line comment", "--", "/* block */", "/* open", "/**/", "/***/", "/* a * / b */", "/****/", "/*** x ***/", "/* x **/", "/*****/", " ", "  ", "\t", "\n", "\r\n", "\r", "\n\n", " \n ",
 	"é", "日本", "\xff", "\xc3", "😀", "#", "@", "~", "`", "[", "]", "{", "}", "?",
 }
 
